@@ -4,6 +4,7 @@ POSTCONDITION TraceAccepted
 CHECK_DEADLOCK FALSE
 INVARIANTS
   C10_ConfigNoCrash_KF
+  C10_ReadBack_NoDangling_KF
   C10_Verdict_KF
   C10_Attrs_KF
   C10_StoredUnchanged_KF
